@@ -9,7 +9,7 @@ NAN, INF = float('nan'), float('inf')
 def gen_ser(tier, R):
     """C12: every operator in unary/binary/ternary position, conditionals, Unicode names and strings (controls, quotes, astral),
     every kind of literal incl. nested array literals, boundary doubles and random bit patterns, trees compile and optimize produce"""
-    names = ['x', '', 'É', '😀', 'a"b', 'a\\b', '\n', '\x00', 'type', 'operator', ' ', '퟿', 'ẞ']
+    names = ['x', '', 'É', '😀', 'a"b', 'a\\b', '\n', '\x00', 'type', 'operator', ' ', '퟿', 'ẞ', '10', '-3', '1.5', '1e3', '.5', '007', 'true', 'null', 'NaN', 'inf', '[]', '{}']
     doubles = [0.0, -0.0, 1.0, -1.5, 0.1, 1e300, 5e-324, 2.2250738585072014e-308, 1.7976931348623157e308, 2.0**53, 2.0**53 + 2, 9007199254740993.0, 1e21, 1e-7, 123456.789, 4.35, 0.3,
                NAN, INF, -INF]
     lits = [num(x) for x in doubles] + [s(n) for n in names] + [b(True), b(False), arr(), arr(num(1.0), s('a'), arr(b(True), arr())), arr(num(NAN)), arr(arr(num(INF)))]
